@@ -377,6 +377,7 @@ func (e *Env) cutLoop(fr *Frame, order []*ssa.BasicBlock, loops map[*ssa.BasicBl
 	// discovery runs (no obligations): which heap arrays does the body write, at which
 	// references, and which phi leaves does it pass through unchanged?
 	counterAtEntry := e.counter
+	snap := e.snapshot()
 	var phis []*ssa.Phi
 	for _, ins := range li.header.Instrs {
 		phi, ok := ins.(*ssa.Phi)
@@ -550,6 +551,7 @@ func (e *Env) cutLoop(fr *Frame, order []*ssa.BasicBlock, loops map[*ssa.BasicBl
 		}
 	}
 	// havoc
+	e.rollback(snap)
 	hv := in.clone()
 	calleeMods := len(wlog["*callee-modifies*"]) > 0
 	ph := &partialHavoc{fr: fr, li: li, refs: map[string][]string{}}
@@ -1208,6 +1210,10 @@ func (e *Env) sliceOp(fr *Frame, x *ssa.Slice, st *State) Value {
 			e.trust("bytes of [N]byte values (hashes): a slice of the whole value holds abytes(value); writes through such a slice are not reflected in the value")
 			sl := &Slice{Arr: r, Off: lo, Len: simplifySub(hi, lo), Cap: simplifySub(n, lo), Typ: x.Type()}
 			if lo == "0" && hi == n {
+				if e.arrayViews == nil {
+					e.arrayViews = map[string]*Ptr{}
+				}
+				e.arrayViews[r] = b
 				// the whole value viewed as bytes
 				e.declBytesFuncs()
 				if fl := e.flatten(e.load(st, b)); len(fl) == 1 {
